@@ -2,8 +2,8 @@ package main
 
 import (
 	"fmt"
-	"runtime/pprof"
 	"os"
+	"runtime/pprof"
 	"strconv"
 	"strings"
 	"time"
